@@ -114,10 +114,17 @@ def bothEqClause (ms : List Member) : M Bytes :=
     if eqs.all id then pure []
     else pure (Bytes.trimSuffix (memberNames ms) (b! ", ") ++ [SP] ++ explainEn ++ b! " they should be equal" ++ errEndFlag)
 
-/-- group the members by (scope, validName), first-appearance order -/
+/-- the key of the group table: the object (scope) and the rule text -/
+def Member.gkey (m : Member) : Bytes × Bytes := (m.scope, m.validName)
+
+/-- distinct keys, in order of first appearance (the Go map's own order is unobservable) -/
+def dedupKeys : List (Bytes × Bytes) → List (Bytes × Bytes)
+  | [] => []
+  | k :: ks => k :: (dedupKeys ks).filter (· != k)
+
+/-- group the members by (scope, validName) -/
 def groupMembers (ms : List Member) : List (List Member) :=
-  let keys := ms.foldl (fun acc m => if acc.any (fun k => k == (m.scope, m.validName)) then acc else acc ++ [(m.scope, m.validName)]) []
-  keys.map fun k => ms.filter fun m => (m.scope, m.validName) == k
+  (dedupKeys (ms.map Member.gkey)).map fun k => ms.filter fun m => m.gkey == k
 
 /-- `validCommon.valid`: one (possibly empty) text per group -/
 def groupClauses (ms : List Member) : M (List Bytes) :=
